@@ -306,7 +306,7 @@ pub mod vx_ids {
                 vx_i <= self.0.len(),
                 forall|k: int, c: int| 0 <= k < vx_i && #[trigger] inr(self@[k].0, c) ==> covers(other@, c),
             decreases self.0.len() - vx_i,
-        @before 1 `return false;`
+        @before 1 `stmt:return`
             proof {
                 // is_range_covered said "no": pick the uncovered clock of `range`; it is covered by self
                 let c = choose|c: int| inr(*range, c) && !covers(other@, c);
@@ -314,7 +314,7 @@ pub mod vx_ids {
                 assert(inr(self@[vx_i - 1].0, c));
                 assert(covers(self@, c));
             }
-        @before 1 `true`
+        @before 1 `stmt:expr true`
             proof {
                 assert forall|c: int| covers(self@, c) implies covers(other@, c) by {
                     let k = idx_of(self@, c);
@@ -338,12 +338,12 @@ pub mod vx_ids {
                 // the entries already passed end at or before `current`
                 forall|k: int| 0 <= k < vx_i ==> (#[trigger] other@[k]).0.end <= current,
             decreases other.0.len() - vx_i,
-        @before 1 `return false;`
+        @before 2 `stmt:return`
             proof {
                 lemma_gap_uncovered(other@, vx_i - 1, current as int);
                 assert(inr(*range, current as int));
             }
-        @before 1 `current = other_range.end;`
+        @before 1 `stmt:assign current`
             proof {
                 assert forall|c: int| range.start <= c < other_range.end implies covers(other@, c) by {
                     if c >= current {
@@ -351,7 +351,7 @@ pub mod vx_ids {
                     }
                 }
             }
-        @before 1 `current >= range.end`
+        @before 1 `stmt:expr current`
             proof {
                 lemma_gap_uncovered(other@, other@.len() as int, current as int);
                 assert(inr(*range, current as int));
